@@ -153,7 +153,7 @@ def place_fault(rng, events, eligible, kinds=("kill", "io_error", "torn")):
     ks = [x for x in kinds if x not in ("torn", "corrupt") or op in ("write", "tofile")]
     if op.startswith("enter") or op.startswith("exit"):
         ks = [x for x in ks if x == "kill"] or ["kill"]
-    kind = rng.choice(ks)
+    kind = rng.choice(ks) if ks else "kill"      # a write-only kind on a non-write event degrades to a kill there
     f = {"kind": kind, "at": k, "label": lab}
     if kind in ("torn", "corrupt"):
         f["tear"] = rng.choice([0.01, 0.25, 0.5, 0.75, 0.99, round(rng.random(), 3)])
